@@ -522,6 +522,7 @@ func search(seed uint64, n, exh int) {
 	searchInter(rng, n/2+5)
 	searchSparse(rng, n/4+3)
 	searchEncodeFileSW(rng, n/2+5)
+	searchHeaderLimits(rng, n/2+8)
 	fmt.Fprintf(out, "EVALS\t%d\n", evals)
 }
 
